@@ -851,6 +851,7 @@ def check(repo, run, tier):
     g(unitrules.eval_context_init, repo, run, 'C12.R1')
     g(unitrules.eval_pipeline, repo, run, 'C12.R10')
     g(unitrules.tag_spec, repo, run, 'C12.R4', ['!eval', '!fstr', '!import'])
+    g(unitrules.fstr_wrap_table, repo, run, 'C12.R4')
     g(unitrules.version_test_table, repo, run, 'C12.R5')
     g(unitrules.namespace_reuse_guard, repo, run, 'C12.R1b')
     g.done()
@@ -858,6 +859,7 @@ def check(repo, run, tier):
 
 def mutants(repo):
     return [
+        Mutant('fstr-apostrophes-not-escaped', lambda r: in_func(r, 'yaml._fstr_constructor', """value.replace(r"'", r"\\'")""", """value.replace("'", "\\'")"""), ['C12.R4']),
         Mutant('namespace-module-looked-up-when-absent', lambda r: in_func(r, 'EvalNode.ayns.on_evaluate_impl', "if self.persistent_namespace and eval_module_name in sys.modules:", "if self.persistent_namespace and eval_module_name not in sys.modules:"), ['C12.R1']),
         Mutant('nested-change-flag-overwritten', lambda r: in_func(r, 'EvalNode._patch_access_to_globals', "                if done_something_sub:\n                    done_something = True\n", "                done_something = done_something_sub\n"), ['C12.R6']),
         Mutant('patched-constant-dropped', lambda r: in_func(r, 'EvalNode._patch_access_to_globals', "                return new_const\n", "                return const\n"), ['C12.R6']),
